@@ -165,7 +165,6 @@ Theorem C14_create_solid_output_wf_writer :
   Forall (fun j : job => Pipeline.encrypted (eff_cfg (j_cfg j) (sp_kind (j_spec j))) = true -> writer_phsf (c_phsf (j_ctx j))) jobs ->
   key_iv_ok (c_key ctx) (c_iv ctx) = true ->
   (Pipeline.encrypted cfg = true -> writer_phsf (c_phsf ctx)) ->
-  small_pieces E compress cfg ctx (solid_writes (map (build_job E compress) jobs)) ->
   let a := write_raw_archive 0 [solid_archive_chunks E compress cfg ctx (solid_writes (map (build_job E compress) jobs))] in
   let es := [RSolid (streamed_solid E compress cfg ctx (solid_writes (map (build_job E compress) jobs)))] in
   wf_archive a = true /\ strict_decode a = Ok es /\
@@ -182,7 +181,6 @@ Check C14_create_solid_output_wf_writer :
   Forall (fun j : job => Pipeline.encrypted (eff_cfg (j_cfg j) (sp_kind (j_spec j))) = true -> writer_phsf (c_phsf (j_ctx j))) jobs ->
   key_iv_ok (c_key ctx) (c_iv ctx) = true ->
   (Pipeline.encrypted cfg = true -> writer_phsf (c_phsf ctx)) ->
-  small_pieces E compress cfg ctx (solid_writes (map (build_job E compress) jobs)) ->
   let a := write_raw_archive 0 [solid_archive_chunks E compress cfg ctx (solid_writes (map (build_job E compress) jobs))] in
   let es := [RSolid (streamed_solid E compress cfg ctx (solid_writes (map (build_job E compress) jobs)))] in
   wf_archive a = true /\ strict_decode a = Ok es /\
